@@ -11,7 +11,7 @@ head = subprocess.run("git -C /repo rev-parse HEAD", shell=True, capture_output=
 if not os.path.isdir(repo):
     os.makedirs(base, exist_ok=True)
     subprocess.run(f"git -C /repo worktree add --detach {repo} HEAD -q", shell=True)
-subprocess.run(f"git -C {repo} checkout -q -- . ; git -C {repo} checkout -q --detach {head}", shell=True)
+subprocess.run(f"git -C {repo} reset -q --hard ; git -C {repo} clean -fdq ; git -C {repo} checkout -q --detach {head}", shell=True)
 env = dict(os.environ, VERIF_REPO=repo, VERIF_ALT_TARGET=f"{base}/target", VERIF_ALT_OUT=f"{base}/out")
 done = set()
 out = "/verif/seeded/RESEED.jsonl"
@@ -24,8 +24,8 @@ for i, d in enumerate(sorted(glob.glob("/verif/seeded/*/meta.json"))):
     sid = m["id"]
     if sid + head in done:
         continue
-    subprocess.run(f"git -C {repo} checkout -q -- .", shell=True)
-    a = subprocess.run(f"git -C {repo} apply --3way {os.path.dirname(d)}/patch.diff", shell=True, capture_output=True, text=True)
+    subprocess.run(f"git -C {repo} reset -q --hard ; git -C {repo} clean -fdq", shell=True)
+    a = subprocess.run(f"git -C {repo} apply {os.path.dirname(d)}/patch.diff", shell=True, capture_output=True, text=True)
     rec = {"id": sid, "head": head, "applies": a.returncode == 0, "checks": {}}
     if a.returncode == 0:
         for c in m["caught_by"]:
@@ -34,4 +34,4 @@ for i, d in enumerate(sorted(glob.glob("/verif/seeded/*/meta.json"))):
     with open(out, "a") as fh:
         fh.write(json.dumps(rec) + "\n")
     print(lane, sid, rec["applies"], rec["checks"], flush=True)
-subprocess.run(f"git -C {repo} checkout -q -- .", shell=True)
+subprocess.run(f"git -C {repo} reset -q --hard ; git -C {repo} clean -fdq", shell=True)
